@@ -433,7 +433,7 @@ pub fn gen_history_with(seed: u64, focus: &str, thorough: bool, forced: Option<V
         k.max_indexes = 1;
         k.metric_change_pct = 0;
         k.big_insert_pct = 100;
-    } else if matches!(focus, "C01" | "C02" | "C13" | "C15") && r.chance(4, 100) {
+    } else if matches!(focus, "C01" | "C02" | "C03" | "C05" | "C13" | "C15" | "C20") && r.chance(if focus == "C20" { 12 } else { 4 }, 100) {
         k.min_items_first = 200;
         k.mem_hint_pct = 85;
         k.max_rounds = 3;
@@ -452,8 +452,14 @@ pub fn gen_history_with(seed: u64, focus: &str, thorough: bool, forced: Option<V
             1
         } else if r.chance(60, 100) {
             *r.pick(&[2usize, 3, 5, 8])
-        } else {
+        } else if r.chance(50, 100) {
             *r.pick(&DIM_POOL)
+        } else if r.chance(70, 100) {
+            // around every multiple of 8 (vector lanes of 4/8/16/32 floats, 64-bit words of the quantised codecs)
+            let base = 8 * (1 + r.below(17) as usize);
+            (base as i64 + *r.pick(&[-1i64, 0, 0, 0, 1])) as usize
+        } else {
+            1 + r.below(140) as usize
         };
         indexes.push(IndexCfg { index, metric, dim });
     }
@@ -640,6 +646,31 @@ pub fn gen_history_with(seed: u64, focus: &str, thorough: bool, forced: Option<V
             if r.chance(1, 150u64.max(n_ops as u64 * 8)) {
                 steps.push(Step::Clear { ix });
                 sh.live.clear();
+                continue;
+            }
+            // a burst of append / delete / overwrite on the greatest id of the index (an append is only
+            // accepted there, and only on the highest index that holds keys): re-appending an id that was
+            // deleted since the last build, deleting it again, appending over a live id, ...
+            if !sh.live.is_empty() && r.chance(3, 100) {
+                let top = *sh.live.iter().next_back().unwrap();
+                for _ in 0..2 + r.below(3) {
+                    let v = VecSpec::Gen { profile: profiles[ix], seed: r.next() };
+                    match r.below(5) {
+                        0 | 1 => {
+                            steps.push(Step::Del { ix, id: top });
+                            sh.live.remove(&top);
+                        }
+                        2 | 3 => {
+                            steps.push(Step::Append { ix, id: top, v });
+                            sh.live.insert(top);
+                        }
+                        _ => {
+                            sh.last.insert(top, v.clone());
+                            steps.push(Step::Add { ix, id: top, v });
+                            sh.live.insert(top);
+                        }
+                    }
+                }
                 continue;
             }
             let vspec = VecSpec::Gen { profile: profiles[ix], seed: r.next() };
